@@ -56,11 +56,34 @@ def install(rolllog):
         _installed[0] = True
 
 
+def awkward(t):
+    """The next time at or after t whose microsecond count us does not survive us -> us / 1e6 -> * 1e6 (the product lands just
+    below us; see EPOCHS): file names carry the truncated microseconds, the file
+    list carries the float, so historic or replayed 'given' timestamps exercise every place the two are compared."""
+    us = int(t * 1_000_000)
+    for _ in range(400):
+        us += 1
+        if us / 1_000_000 * 1_000_000 < us:
+            ts = (us + 0.5) / 1_000_000
+            if int(ts * 1_000_000) == us:
+                return ts
+    return t
+
+
+# such microseconds come in bands just below a power of two (24 % of all values in 1.0999e9..1.1259e9 s = Nov 2004..Sep 2005 and in
+# 2.2e9..2.2518e9 s = 2039..2041; none in between), so the awkward cases start inside a band
+EPOCHS = (1_099_999_000.0, 1_120_000_000.0, 2_200_000_000.0, 2_240_000_000.0)
+EPOCHS_PLAIN = (1_000_000.0, 631_152_000.0, 1_000_000_000.0, 4_000_000_000.0)
+
+
 def run_ops(rolllog, clock, tmp, spec, stats, k):
     """spec: {'mode','fs','ts','ops':[...]} ; ops are lists. Returns (world, viol|None)."""
     d = os.path.join(tmp, f'c{k}')
     os.makedirs(d)
-    clock.t = rh.T0 + 1
+    awk = bool(spec.get('awk'))
+    clock.t = spec.get('epoch', rh.T0) + 1
+    if awk:
+        clock.t = awkward(clock.t)
     clock.went_back = clock.repeated = False
     w = rh.World(rolllog, clock, d, spec['mode'], spec['fs'], spec['ts'], stats)
     w.reader_fs = spec.get('rfs')        # file_size a reader object happens to be constructed with (writer-side setting)
@@ -76,6 +99,8 @@ def run_ops(rolllog, clock, tmp, spec, stats, k):
                 elif op[1] == 0:
                     clock.repeated = True
                 clock.t += op[1]
+                if awk and abs(op[1]) >= 1e-6:
+                    clock.t = awkward(clock.t)
             elif name == 'write':
                 _, pad, ts_mode, multi = op
                 if ts_mode == 'repeat':
@@ -165,7 +190,11 @@ def gen_random(rng):
             ops.append(['reopen'])
         else:
             ops.append(['unlink', rng.randrange(6)])
-    return {'mode': mode, 'fs': fs, 'ts': ts, 'ops': ops, 'hostile': hostile, 'rfs': rng.choice([None, None, 1, max(1, fs // 2), fs, fs * 4])}
+    spec = {'mode': mode, 'fs': fs, 'ts': ts, 'ops': ops, 'hostile': hostile, 'rfs': rng.choice([None, None, 1, max(1, fs // 2), fs, fs * 4])}
+    if rng.random() < 0.3:          # historic / replayed time base (drawn last: the op sequences of earlier seeds are unchanged)
+        spec['awk'] = rng.random() < 0.75
+        spec['epoch'] = rng.choice(EPOCHS if spec['awk'] else EPOCHS_PLAIN)
+    return spec
 
 
 CORE = {
@@ -192,6 +221,8 @@ def handle(res, spec, w, v, key):
             res.nontrivial(key)
     if spec.get('hostile'):
         res.count('hostile_clock_cases')
+    if spec.get('epoch'):
+        res.count('historic_epoch_cases' + ('_awkward_microseconds' if spec.get('awk') else ''))
     if v is not None:
         res.violation(v.mech, f'{v.msg}; mode={spec["mode"]} file_size={spec["fs"]} total_size={spec["ts"]} last ops={[h for h in (w.hist[-6:] if w else [])]}', spec)
 
@@ -221,6 +252,12 @@ def run_shard(ctx):
                     w, v = run_ops(rolllog, clock, tmp, spec, stats, k)
                     handle(res, spec, w, v, mode + ':' + ','.join(seq))
                     _rm(tmp, k)
+                    if 'w_same_ts' in seq and n <= 4:
+                        spec = dict(spec, epoch=EPOCHS[i % len(EPOCHS)], awk=True)
+                        k += 1
+                        w, v = run_ops(rolllog, clock, tmp, spec, stats, k)
+                        handle(res, spec, w, v, 'awk:' + mode + ':' + ','.join(seq))
+                        _rm(tmp, k)
         res.count('exhaustive_sequences', res.evaluations)
         n = 400 if ctx.quick else 20000
         for j in range(n):
